@@ -85,7 +85,7 @@ func (m *Mutex) Unlock() {
 	m.mu.Unlock()
 }
 
-// RWMutex is a scheduler-aware sync.RWMutex (no writer preference is modelled).
+// RWMutex is a scheduler-aware sync.RWMutex; the precedence of a waiting writer over new readers is modelled.
 type RWMutex struct{ mu sync.RWMutex }
 
 // Lock locks rw for writing.
@@ -100,9 +100,22 @@ func (m *RWMutex) Lock() {
 		return
 	}
 	st := t.C().Mutex(m)
-	t.Point(vsched.Op{Kind: "wlock", Obj: st.ID, Enabled: func() bool { return st.Owner == nil && st.Readers == 0 }})
+	// Go's RWMutex gives a waiting writer precedence: once Lock has been called while readers hold the
+	// lock, further RLock calls block until that writer has had the lock (a recursive read lock with a
+	// writer arriving in between deadlocks). Modelled as two steps when readers are present: the call
+	// (announcing the writer), then the acquisition once the readers have left. Writers queue behind an
+	// announced writer as they do on the real mutex's internal writer lock.
+	t.Point(vsched.Op{Kind: "wlock", Obj: st.ID, Enabled: func() bool { return st.Owner == nil && st.Pending == nil }})
 	if t.Aborting() {
 		return
+	}
+	if st.Readers > 0 {
+		st.Pending = t
+		t.Point(vsched.Op{Kind: "wlock-wait", Obj: st.ID, Enabled: func() bool { return st.Readers == 0 }})
+		if t.Aborting() {
+			return
+		}
+		st.Pending = nil
 	}
 	st.Owner = t
 	m.mu.Lock()
@@ -140,7 +153,7 @@ func (m *RWMutex) RLock() {
 		return
 	}
 	st := t.C().Mutex(m)
-	t.Point(vsched.Op{Kind: "rlock", Obj: st.ID, Enabled: func() bool { return st.Owner == nil }})
+	t.Point(vsched.Op{Kind: "rlock", Obj: st.ID, Enabled: func() bool { return st.Owner == nil && st.Pending == nil }})
 	if t.Aborting() {
 		return
 	}
